@@ -80,7 +80,8 @@ def main():
     tier = "thorough" if "--thorough" in sys.argv else "quick"
     in_repo = "--in-repo" in sys.argv
     ids = [a for a in sys.argv[1:] if not a.startswith("--")] or sorted(
-        x for x in os.listdir(os.path.join(ROOT, "seeded")) if os.path.isdir(os.path.join(ROOT, "seeded", x)))
+        x for x in os.listdir(os.path.join(ROOT, "seeded"))
+        if os.path.isdir(os.path.join(ROOT, "seeded", x)) and not x.startswith("_"))
     for sid in ids:
         r = evaluate(sid, tier, in_repo)
         print(json.dumps(r, indent=1), flush=True)
